@@ -10,6 +10,7 @@ open Pyrealb.C11
 #print axioms typ_merge_order_free_holds
 #print axioms typ_split_equiv_holds
 #print axioms typ_later_wins_holds
+#print axioms typ_zero_stored_false
 #print axioms typ_false_eq_absent_holds
 #print axioms typ_false_eq_absent_sites
 #print axioms typ_invalid_ignored_holds
